@@ -30,6 +30,10 @@ CHECKS = {
                 text="For every generated specification the published bounds are confronted with validated realizing sequences; infeasibility is reported only when an exhaustive search inside the bounds finds nothing while a sequence exists outside, or by a counting argument; min_length is compared with every validated witness.",
                 note="trusts vf/seqcheck.py and vf/brute.py; larger specifications without witness are counted as inconclusive",
                 ref="DESIGN.md section 3 C16"),
+    "C18": dict(level="exploration", technique="bounded-exhaustive enumeration of formula trees (depth <= 2) + Hypothesis recursive trees (depth <= 4); oracle = three-way truth-table agreement (own AST evaluator, constructed object, re-parsed SMT-LIB text) and == implies equal truth table",
+                text="All well-sorted trees of depth <= 2 over the atom set are enumerated and deeper/n-ary ones sampled; each is built through add_* and its truth table over 20 valuations compared three ways; detects any simplification or printing step that changes a truth value on the explored trees.",
+                note="own S-expression reader/evaluator; uninterpreted f fixed to one total function; the depth-2 enumeration is complete for the stated atom set, deeper trees are sampled",
+                ref="DESIGN.md section 3 C18"),
 }
 
 NOT_YET = {}
